@@ -6,4 +6,5 @@ class Plugin(HistPlugin):
     id = 'C08'
     extra_import = 'HistProps HistPropCheck'
     check_fn = 'c08_check'
-    FINDING_BITS = 1
+    FINDING_BITS = 1 | 8
+    UNDECIDED_BITS = 2 | 4 | 16
